@@ -85,7 +85,7 @@ def layer_flux_sw(ctx):
         for i in range(ctx.n(80, 1500)):
             g = float(ctx.rng.choice([9.81, 1.0, 2.0]))
             L, R = gens.sw_pair(ctx.rng, g, i % 7)
-            m = impl.shallowwater.shallowwater1d(g=g)
+            m = impl.pool('sw', g=g)
             op = "k %s %s" % (SWFLUX.get(name, 'unknown-' + name), qs([g, L[0], L[1], R[0], R[1]]))
             cases.append(dict(op=op, what='shallowwater/' + name, inp=dict(g=g, L=L, R=R),
                               f=(lambda m=m, name=name, L=L, R=R: flat(m.numflux(name, [np.array([L[0]]), np.array([L[1]])],
@@ -128,7 +128,7 @@ def layer_flux_euler(ctx):
         for i in range(ctx.n(96, 2000)):
             g = gens.gamma(ctx.rng)
             L, R = gens.euler_pair(ctx.rng, g, i % 8)
-            m = impl.euler.euler1d(gamma=g)
+            m = impl.pool('euler1d', gamma=g)
             op = "k %s %s" % (EFLUX.get(name, 'unknown-' + name), qs([g] + list(L) + list(R)))
             cases.append(dict(op=op, what='euler1d/' + name, inp=dict(gamma=g, L=L, R=R),
                               f=(lambda m=m, name=name, L=L, R=R: flat(m.numflux(name, [np.array([x]) for x in L],
@@ -159,7 +159,7 @@ def layer_flux_euler2d(ctx):
                 tR = tL
             VL = (L[1], tL) if nrm[0] == 1.0 else (tL, L[1])
             VR = (R[1], tR) if nrm[0] == 1.0 else (tR, R[1])
-            m = impl.euler.euler2d(gamma=g)
+            m = impl.pool('euler2d', gamma=g)
             op = "k %s %s" % (E2FLUX.get(name, 'unknown-' + name), qs([g, nrm[0], nrm[1], L[0], VL[0], VL[1], L[2], R[0], VR[0], VR[1], R[2]]))
             def f(m=m, name=name, L=L, R=R, VL=VL, VR=VR, nrm=nrm):
                 pl = [np.array([L[0]]), np.array([[VL[0]], [VL[1]]]), np.array([L[2]])]
@@ -205,7 +205,7 @@ def layer_prim_euler(ctx):
         r, u, p = gens.euler_state(ctx.rng, g)
         if i % 9 == 0:
             u = 0.0
-        m = impl.euler.euler1d(gamma=g)
+        m = impl.pool('euler1d', gamma=g)
         E = p / (g - 1) + .5 * r * u * u
         mo = r * u
         W = [np.array([r]), np.array([u]), np.array([p])]
@@ -243,7 +243,7 @@ def layer_prim_euler2d(ctx):
             ux = 0.0
         if i % 9 == 1:
             uy = 0.0
-        m = impl.euler.euler2d(gamma=g)
+        m = impl.pool('euler2d', gamma=g)
         E = p / (g - 1) + .5 * r * (ux * ux + uy * uy)
         mx, my = r * ux, r * uy
         W = [np.array([r]), np.array([[ux], [uy]]), np.array([p])]
@@ -276,7 +276,7 @@ def layer_prim_misc(ctx):
     for i in range(ctx.n(40, 600)):
         g = float(ctx.rng.choice([9.81, 1.0]))
         h = gens.loguni(ctx.rng, 1e-3, 1e3); u = float(ctx.rng.uniform(-3, 3) * np.sqrt(g * h))
-        m = impl.shallowwater.shallowwater1d(g=g)
+        m = impl.pool('sw', g=g)
         qv = h * u
         cases.append(dict(op="k swPrim2cons %s" % qs([h, u]), what='sw/prim2cons', inp=dict(h=h, u=u),
                           f=(lambda m=m, h=h, u=u: flat(m.prim2cons([np.array([h]), np.array([u])]))), scale=[h, h * abs(u) + 1e-300]))
@@ -348,7 +348,7 @@ EBC = {'sym': ('eBcSym', lambda g, d, W, P: list(W)),
 def layer_bcker_euler(ctx):
     cases = []
     for (name, d, g, W, par) in bc_cases_euler(ctx, ctx.n(24, 500)):
-        m = impl.euler.euler1d(gamma=g)
+        m = impl.pool('euler1d', gamma=g)
         r, u, p = W
         c = np.sqrt(g * p / r)
         sc = [r * 4, (abs(u) + c) * 4, (p + par.get('p', 0) + par.get('ptot', 0)) * 4]
@@ -398,7 +398,7 @@ def layer_bcker_euler2d(ctx):
             ptot = p * (1 + .5 * (g - 1) * M * M) ** (g / (g - 1)) * float(ctx.rng.choice([1.0, ctx.rng.uniform(0.7, 1.6)]))
             rttot = p / r * (1 + .5 * (g - 1) * M * M) * float(ctx.rng.choice([1.0, ctx.rng.uniform(0.7, 1.5)]))
             pext = p * float(ctx.rng.choice([1.0, ctx.rng.uniform(0.5, 2.0)]))
-            m = impl.euler.euler2d(gamma=g)
+            m = impl.pool('euler2d', gamma=g)
             W = [np.array([r]), np.array([[ux], [uy]]), np.array([p])]
             d = np.array([[nrm[0]], [nrm[1]]])
             sc = [r * 4 + ptot / rttot, (abs(v) + c) * 6, (abs(v) + c) * 6, (p + pext + ptot) * 4]
@@ -447,19 +447,19 @@ def layer_dt(ctx):
         cases.append(dict(op="k burgersDt %s" % qs([cfl, dx, u]), what='burgers/timestep', inp=dict(u=u, cfl=cfl, dx=dx),
                           f=(lambda mb=mb, cfl=cfl, dx=dx, u=u, nb=nb: mb.timestep([np.array([u, u * nb, -u * nb * nb])], np.array([dx, dx * 3, dx]), cfl)[:1]), scale=cfl * dx / abs(u), branch='burgers'))
         g = float(ctx.rng.choice([9.81, 1.0])); h = gens.loguni(ctx.rng, 1e-3, 1e3); us = float(ctx.rng.uniform(-3, 3) * np.sqrt(g * h))
-        ms = impl.shallowwater.shallowwater1d(g=g)
+        ms = impl.pool('sw', g=g)
         cases.append(dict(op="k swDt %s" % qs([g, cfl, dx, h, h * us]), what='sw/timestep', inp=dict(g=g, h=h, q=h * us, cfl=cfl, dx=dx),
                           f=(lambda ms=ms, cfl=cfl, dx=dx, h=h, us=us, nb=nb: ms.timestep([np.array([h, h * nb]), np.array([h * us, -h * us * nb * nb])], np.array([dx, dx * 2]), cfl)[:1]),
                           scale=cfl * dx / (abs(us) + np.sqrt(g * h)), branch='sw'))
         ga = gens.gamma(ctx.rng); r, ue, p = gens.euler_state(ctx.rng, ga)
         E = p / (ga - 1) + .5 * r * ue * ue
-        me = impl.euler.euler1d(gamma=ga)
+        me = impl.pool('euler1d', gamma=ga)
         cases.append(dict(op="k eDt %s" % qs([ga, cfl, dx, r, r * ue, E]), what='euler1d/timestep', inp=dict(gamma=ga, Q=(r, r * ue, E), cfl=cfl, dx=dx),
                           f=(lambda me=me, cfl=cfl, dx=dx, r=r, ue=ue, E=E, nb=nb: me.timestep([np.array([r, r * nb]), np.array([r * ue, -r * ue * nb * nb]), np.array([E, E * nb ** 3])], np.array([dx, dx * 2]), cfl)[:1]),
                           scale=cfl * dx / (abs(ue) + np.sqrt(ga * p / r)) * (1 + (ue ** 2 * r / p)), branch='euler1d'))
         th = ctx.rng.uniform(0, 2 * np.pi); ux, uy = float(abs(ue) * np.cos(th)), float(abs(ue) * np.sin(th))
         E2 = p / (ga - 1) + .5 * r * (ux * ux + uy * uy)
-        m2 = impl.euler.euler2d(gamma=ga)
+        m2 = impl.pool('euler2d', gamma=ga)
         cases.append(dict(op="k e2Dt %s" % qs([ga, cfl, dx, r, r * ux, r * uy, E2]), what='euler2d/timestep', inp=dict(gamma=ga, Q=(r, r * ux, r * uy, E2), cfl=cfl, dx=dx),
                           f=(lambda m2=m2, cfl=cfl, dx=dx, r=r, ux=ux, uy=uy, E2=E2: m2.timestep([np.array([r]), np.array([[r * ux], [r * uy]]), np.array([E2])], dx, cfl)),
                           scale=cfl * dx / (abs(ue) + np.sqrt(ga * p / r)) * (1 + (ue ** 2 * r / p)), branch='euler2d'))
